@@ -74,6 +74,34 @@ def blockRowOk (groups : List String) (cell : Option String) (x z : List Entry) 
         (match x.getD k none with | some _ => some 0 | none => none)
       closeE want (z.getD (g * p + k) none)))
 
+mutual
+/-- does an argument expression mention the `Sum` encoding (as a name or as a call)? -/
+def mentionsSum : Expr → Bool
+  | .variable n => n.lexeme == "Sum"
+  | .call c _ as _ => mentionsSum c || argsMentionSum as
+  | .assign _ _ v => mentionsSum v
+  | .grouping _ e _ => mentionsSum e
+  | _ => false
+def argsMentionSum : Args → Bool
+  | .nil => false
+  | .last e => mentionsSum e
+  | .more e _ rest => mentionsSum e || argsMentionSum rest
+end
+
+/-- a component that asks for sum-to-zero coding: `S(g, …)` or `C(g, Sum…)` -/
+def sumCodedComponent : Expr → Bool
+  | .call (.variable c) _ as _ => c.lexeme == "S" || (c.lexeme == "C" && argsMentionSum as)
+  | _ => false
+
+/-- class of the known finding D30: the grouping factor of a group-specific term has a component
+that asks for sum-to-zero coding.  The library then codes the *grouping factor* with the full-rank
+sum matrix (a `mean` column and level-minus-omitted columns) instead of the complete indicator
+matrix, so the block is not "one slot per group" (theorem `C05_factor_sum_counterexample`). -/
+def classD30 (table : List (String × Expr)) (factorComps : List String) : Bool :=
+  factorComps.any (fun n => match table.find? (·.1 == n) with
+    | some p => sumCodedComponent p.2
+    | none => false)
+
 structure Verdict where
   groupsOk : Bool
   blocksOk : Bool
